@@ -31,7 +31,10 @@ class Failing(Exception):
     pass
 
 
-def make_spy_store(yield_fn, fail_at=None):
+FAIL_TYPES = [None, IndexError, KeyError, StopIteration, IOError, RuntimeError]
+
+
+def make_spy_store(yield_fn, fail_at=None, fail_type=None):
     """The wrapped cassette (harness code): logs applications in order; storage methods contain yield points so
     that 'the flusher is inside a storage call' is a state in which producers can be scheduled."""
     from playback.recordings.memory.memory_recording import MemoryRecording
@@ -66,7 +69,7 @@ def make_spy_store(yield_fn, fail_at=None):
                 self.n += 1
                 self.applied.append(what)
                 if fail_at is not None and self.n == fail_at:
-                    raise Failing('injected: wrapped storage operation %d fails' % self.n)
+                    raise (fail_type or Failing)('injected: wrapped storage operation %d fails' % self.n)
                 fn()
                 yield_fn()
             finally:
@@ -227,7 +230,7 @@ def make_execution(w, fail_at, holder, close_timeout=None):
     from playback.tape_cassettes.asynchronous import async_record_only_tape_cassette as mod
 
     def make(sched):
-        store = make_spy_store(lambda: sched.yield_point(), fail_at=fail_at)
+        store = make_spy_store(lambda: sched.yield_point(), fail_at=fail_at, fail_type=FAIL_TYPES[(fail_at or 0) % len(FAIL_TYPES)])
         saved = (mod.Lock, mod.Event, mod.Thread)
         mod.Lock, mod.Event, mod.Thread = sched.Lock, sched.Event, sched.Thread
         try:
@@ -358,7 +361,7 @@ def stress(ctx, n):
         if rng.random() < 0.2:
             w = {'producers': w['producers'], 'recordings': 2, 'writes': 1, 'interleaved': True}
         fail_at = rng.choice([None, None, rng.randrange(1, 6)])
-        store = make_spy_store(lambda: time.sleep(0) if rng.random() < 0.5 else None, fail_at=fail_at)
+        store = make_spy_store(lambda: time.sleep(0) if rng.random() < 0.5 else None, fail_at=fail_at, fail_type=rng.choice(FAIL_TYPES))
         cas = AsyncRecordOnlyTapeCassette(store, flush_interval=rng.choice([0.0001, 0.001, 0.01]), timeout_on_close=60)
         cas.start()
         recs = {}
@@ -488,6 +491,49 @@ def backlog(ctx, n):
         judge(ctx, w, store, None, [], getattr(store, 'closed_with', None), wit, None)
 
 
+def steady_pace(ctx, n_writes):
+    """Steady load with a storage that just keeps up: while the flusher is inside the storage call for one write, the service requests
+    exactly one more - for more than a thousand consecutive rounds. Real threads, paced by a handshake at the storage call."""
+    from playback.tape_cassettes.asynchronous.async_record_only_tape_cassette import AsyncRecordOnlyTapeCassette
+    inside, enqueued = threading.Semaphore(0), threading.Semaphore(0)
+    calls = [0]
+    active = [True]
+
+    def hook():
+        calls[0] += 1
+        if active[0] and calls[0] % 2 == 1:
+            inside.release()
+            enqueued.acquire(timeout=5)
+    store = make_spy_store(hook)
+    w = {'producers': 1, 'recordings': 1, 'writes': n_writes}
+    ops = workload_ops(w)[0]
+    hook_errors = []
+    old_hook = threading.excepthook
+    threading.excepthook = lambda a: hook_errors.append(repr(a.exc_value)[:200])
+    try:
+        cas = AsyncRecordOnlyTapeCassette(store, flush_interval=0.0003, timeout_on_close=120)
+        cas.start()
+        recs = {}
+        run_producer(cas, ops[:2], recs)                     # create + the first write
+        for op in ops[2:]:
+            if not inside.acquire(timeout=5):                # the flusher is not in a storage call (it died, or it is idle): go on unpaced
+                active[0] = False
+            run_producer(cas, [op], recs)
+            enqueued.release()
+        active[0] = False
+        for _ in range(4):
+            enqueued.release()
+        cas.close()
+    finally:
+        threading.excepthook = old_hook
+    ctx.case(('steady_pace', n_writes, len(store.applied)), nontrivial=True)
+    ctx.count('steady_pace_runs')
+    wit = {'backlog': True, 'steady_pace': n_writes, 'workload': w, 'fail_at': None}
+    if hook_errors:
+        ctx.violation('the background thread of the asynchronous cassette died under steady load: %s' % hook_errors[0][:80], wit)
+    judge(ctx, w, store, None, [], getattr(store, 'closed_with', None), wit, None)
+
+
 def run(ctx):
     from playback.tape_cassettes.asynchronous.async_record_only_tape_cassette import AsyncRecordOnlyTapeCassette
     for a in ('_recording_loop', '_flush_recording', '_add_async_operation'):
@@ -551,6 +597,7 @@ def run(ctx):
     mutation_twin(ctx, ctx.budget(60, 3000))
     if ctx.shard == 0:
         backlog(ctx, 2 if ctx.quick else 12)
+        steady_pace(ctx, 1300 if ctx.quick else 2500)
     if not ctx.counters.get('operations_checked'):
         ctx.inconclusive('no operation was checked')
 
